@@ -50,6 +50,11 @@ def tv_eval(node: ast.AST, atoms: Dict[str, Optional[bool]]) -> Optional[bool]:
     if isinstance(node, ast.UnaryOp) and isinstance(node.op, ast.Not):
         v = tv_eval(node.operand, atoms)
         return None if v is None else (not v)
+    if isinstance(node, ast.Compare) and len(node.ops) == 1 and isinstance(node.ops[0], (ast.Is, ast.IsNot)) and isinstance(node.comparators[0], ast.Attribute) and isinstance(node.comparators[0].value, ast.Name) and node.comparators[0].attr.isupper():
+        # identity against an Enum member selects the branch of the equality test for Enum-typed values (whether the stored
+        # value can be a plain string instead is the MODE-TEST rule's question, not the polarity's)
+        eq = ast.Compare(left=node.left, ops=[ast.Eq() if isinstance(node.ops[0], ast.Is) else ast.NotEq()], comparators=node.comparators)
+        return tv_eval(eq, atoms)
     if isinstance(node, ast.Compare) and len(node.ops) == 1:
         # the complementary spelling of a configured atom: `a is None` <-> `a is not None`, == <-> !=, < <-> >=, > <-> <=
         comp = {ast.Is: ast.IsNot, ast.IsNot: ast.Is, ast.Eq: ast.NotEq, ast.NotEq: ast.Eq, ast.Lt: ast.GtE, ast.GtE: ast.Lt, ast.Gt: ast.LtE, ast.LtE: ast.Gt, ast.In: ast.NotIn, ast.NotIn: ast.In}.get(type(node.ops[0]))
@@ -756,8 +761,46 @@ def tabulate_demodulators(repo: Repo, rep: Report, rule: str, which: str) -> int
     return n
 
 
+def rule_mode_tests(repo: Repo, rep: Report) -> int:
+    """MODE-TEST: the thresholders select their LLR / probability handling by comparing the stored `input_type` with a
+    member of a str-mixin Enum.  The constructors store the argument unconverted and document the plain-string forms
+    ('prob', 'llr'); a string equals the member but is not the same object, so the comparison must be by value (`==`,
+    `!=`, `in`) - an identity test (`is`, `is not`) silently skips the LLR handling for the string form."""
+    mod = repo.module(THR)
+    str_enums = {nm for nm, ci_ in mod.classes.items() if {"str", "Enum"} <= {unparse(b).split(".")[-1] for b in ci_.node.bases}}
+    n = 0
+    for ci_ in mod.classes.values():
+        init = ci_.methods.get("__init__")
+        stored_raw = set()
+        if init is not None:
+            params = {a.arg for a in init.node.args.args + init.node.args.kwonlyargs}
+            for st in ast.walk(init.node):
+                if isinstance(st, ast.Assign) and len(st.targets) == 1 and (attr_chain(st.targets[0]) or "").startswith("self.") and isinstance(st.value, ast.Name) and st.value.id in params:
+                    stored_raw.add(attr_chain(st.targets[0]))
+                    stored_raw.add(st.value.id)
+        for fi in ci_.methods.values():
+            for cmp_ in ast.walk(fi.node):
+                if not isinstance(cmp_, ast.Compare) or len(cmp_.ops) != 1:
+                    continue
+                sides = [cmp_.left, cmp_.comparators[0]]
+                mem = [x for x in sides if isinstance(x, ast.Attribute) and isinstance(x.value, ast.Name) and x.value.id in str_enums]
+                oth = [x for x in sides if x not in mem]
+                if len(mem) != 1 or not oth:
+                    continue
+                n += 1
+                if (attr_chain(oth[0]) or (oth[0].id if isinstance(oth[0], ast.Name) else None)) not in stored_raw:
+                    continue  # converted on the way in (or another value): identity and equality agree on Enum members
+                if isinstance(cmp_.ops[0], (ast.Is, ast.IsNot)):
+                    rep.violation("MODE-TEST", fi, f"identity test of the stored input type against {unparse(mem[0])}", f"`{unparse(cmp_)}`: {mem[0].value.id} is a str-Enum and the constructor stores the argument unconverted; the documented string form ({mem[0].attr.lower()!r}-style) equals the member but is not the same object, so this branch is not taken for it - in LLR mode the LLRs are then thresholded as if they were P(bit = 1)", node=cmp_)
+                else:
+                    rep.ok("MODE-TEST", fi, f"{ci_.name}.{fi.name}: stored input type compared with {unparse(mem[0])} by value", "a plain string and the Enum member select the same branch", node=cmp_, nontrivial=False)
+    rep.floor("mode tests against str-Enum members", n, 10)
+    return n
+
+
 def run(repo: Repo, rep: Report, tier: str) -> None:
     rule_llr_range(repo, rep)
+    rule_mode_tests(repo, rep)
     if tier == "thorough":
         tabulate_demodulators(repo, rep, "POLARITY-PRODUCER", "soft")
     n_prod = producers(repo, rep)
